@@ -137,25 +137,51 @@ func New(opt Options) (*Stack, error) {
 	sup.FullEnv = opt.FullEnv
 	sup.ExitLag = time.Duration(opt.ExitLagMs) * time.Millisecond
 
-	port := 0
-	if !opt.Port0 {
-		port, err = freePort()
-		if err != nil {
-			return nil, err
+	// The port is chosen by asking the kernel for a free one and releasing it again; another process of a check
+	// running in parallel can take it before the emulator listens (rapid.Start panics on a listen failure).
+	// That is a collision of the driver's making, not behaviour of the emulator: choose again.
+	var (
+		b       *rapidcore.SandboxBuilder
+		sbCtx   interop.SandboxContext
+		stateFn interop.InternalStateGetter
+		addr    string
+	)
+	for attempt := 0; ; attempt++ {
+		port := 0
+		if !opt.Port0 {
+			port, err = freePort()
+			if err != nil {
+				return nil, err
+			}
 		}
+		addr = fmt.Sprintf("127.0.0.1:%d", port)
+		b = rapidcore.NewSandboxBuilder().
+			SetSupervisor(sup).
+			SetRuntimeFsRootPath(root).
+			SetRuntimeAPIAddress(addr).
+			SetExtensionsFlag(true).
+			SetInitCachingFlag(opt.InitCaching).
+			SetEventsAPI(&telRecorder{r: r})
+		if opt.Handler != "" {
+			b.SetHandler(opt.Handler)
+		}
+		ok := func() (ok bool) {
+			defer func() {
+				if rec := recover(); rec != nil {
+					if attempt >= 8 {
+						panic(rec)
+					}
+					ok = false
+				}
+			}()
+			sbCtx, stateFn = b.Create()
+			return true
+		}()
+		if ok {
+			break
+		}
+		time.Sleep(time.Duration(5*(attempt+1)) * time.Millisecond)
 	}
-	addr := fmt.Sprintf("127.0.0.1:%d", port)
-	b := rapidcore.NewSandboxBuilder().
-		SetSupervisor(sup).
-		SetRuntimeFsRootPath(root).
-		SetRuntimeAPIAddress(addr).
-		SetExtensionsFlag(true).
-		SetInitCachingFlag(opt.InitCaching).
-		SetEventsAPI(&telRecorder{r: r})
-	if opt.Handler != "" {
-		b.SetHandler(opt.Handler)
-	}
-	sbCtx, stateFn := b.Create()
 	srv := b.DefaultInteropServer()
 	srv.SetSandboxContext(sbCtx)
 	srv.SetInternalStateGetter(stateFn)
